@@ -8,12 +8,17 @@ WT=/tmp/confirm-$ID
 git -C /repo worktree remove --force $WT >/dev/null 2>&1
 git -C /repo worktree add -q $WT HEAD || exit 2
 cd $WT
-build() { cmake -G Ninja -S $WT -B $WT/_build -DBUILD_TESTING=ON -DCMAKE_BUILD_TYPE=RelWithDebInfo >/dev/null 2>&1 && cmake --build $WT/_build >/dev/null 2>&1; }
+TS=TBB; [ "$MODE" = omp ] && TS=OpenMP
+build() { cmake -G Ninja -S $WT -B $WT/_build -DBUILD_TESTING=ON -DCMAKE_BUILD_TYPE=RelWithDebInfo -DRKCOMMON_TASKING_SYSTEM=$TS >/dev/null 2>&1 && cmake --build $WT/_build >/dev/null 2>&1; }
 demo() {  # $1 = output binary
   case $MODE in
     hdr) clang++ -std=c++11 -g -O1 -fsanitize=address,undefined -fno-sanitize-recover=undefined -I$WT -I$WT/_build $OUT/$ID/demo.cpp -o $1 2>/dev/null;;
     so) g++ -std=c++11 -g -I$WT -I$WT/_build $OUT/$ID/demo.cpp $WT/_build/librkcommon.so -Wl,-rpath,$WT/_build -o $1 2>/dev/null;;
     so+src:*) clang++ -std=c++11 -g -O1 -fsanitize=address,undefined -fno-sanitize-recover=all -I$WT -I$WT/_build $OUT/$ID/demo.cpp $WT/${MODE#so+src:} $WT/_build/librkcommon.so -Wl,-rpath,$WT/_build -o $1 2>/dev/null;;
+    gso) g++ -std=c++11 -O1 -g -pthread -I$WT -I$WT/_build $OUT/$ID/demo.cpp $WT/_build/librkcommon.so -Wl,-rpath,$WT/_build -o $1 2>/dev/null;;
+    asanso) clang++ -std=c++11 -g -O1 -fsanitize=address,undefined -fno-sanitize-recover=undefined -I$WT -I$WT/_build $OUT/$ID/demo.cpp $WT/_build/librkcommon.so -Wl,-rpath,$WT/_build -o $1 2>/dev/null;;
+    tbb) g++ -std=c++11 -O1 -g -pthread -DRKCOMMON_TASKING_TBB -I$WT -I$WT/_build $OUT/$ID/demo.cpp $WT/_build/librkcommon.so -Wl,-rpath,$WT/_build -ltbb -o $1 2>/dev/null;;
+    omp) g++ -std=c++11 -O1 -g -pthread -fopenmp -DRKCOMMON_TASKING_OMP -I$WT -I$WT/_build $OUT/$ID/demo.cpp $WT/_build/librkcommon.so -Wl,-rpath,$WT/_build -o $1 2>/dev/null;;
     tsan) clang++ -std=c++11 -g -O0 -fsanitize=thread -I$WT -I$WT/_build $OUT/$ID/demo.cpp $WT/_build/librkcommon.so -Wl,-rpath,$WT/_build -lpthread -o $1 2>/dev/null;;
   esac
 }
